@@ -46,7 +46,7 @@ pub fn spec_for(prop: &str) -> Option<CheckSpec> {
             rule: "one case = (document, 7 reader switches, reader flavour, source kind, BufReader capacity, cut set, buffer policy, pending pattern); generated from the seed; distinct = distinct Plan hash (every cut set of an exhaustively cut short document counts once); non-trivial = at least one piece boundary lies strictly between a '<' and the next '>' (scanner state must cross a refill) or at least one Poll::Pending fired",
             assumptions: vec![
                 "the slice reader is the reference: agreement is checked, not the correctness of either side",
-                "first piece >= 4 bytes when the input starts with a BOM / UTF-16 signature byte (exception stated by C02)",
+                "the first piece holds the complete signature when the input starts with a BOM / UTF-16 signature byte (exception stated by C02): 3 bytes for a UTF-8 BOM, 2 for a UTF-16 BOM, 4 otherwise",
                 "inputs are sampled, not enumerated (except all 2^(n-1) cut sets of documents of <= 10 bytes)",
             ],
             real: real_reader,
@@ -78,7 +78,7 @@ pub fn spec_for(prop: &str) -> Option<CheckSpec> {
             prop: "C18",
             level: "fault_enumeration",
             parts: vec![Part { scen: &FAULT, quick: 120_000, thorough: 3_000_000 }, Part { scen: &CORPUSFAULT, quick: 0, thorough: 360 }],
-            rule: "one case = (document, switches, source kind, cut set, fault point, fault kind); for each sampled (document, switches, source, cuts) EVERY refill call index of the fault-free run is used as fault point with Eintr x1, Eintr x3 and one hard error kind; a quarter of the plans are random multi-fault patterns instead; distinct = Plan hash x fault list; non-trivial = the fault hit a refill call that is not the first one of its read call (part of the event was already consumed)",
+            rule: "one case = (document, switches, source kind, cut set, fault point, fault kind); for each sampled (document, switches, source, cuts) EVERY refill call index of the fault-free run is used as fault point with Eintr x1, Eintr x3 and one hard error kind; one enumerated plan in four runs a Read/Skip call history instead of plain reads (refills inside read_to_end_into are fault points too); error payloads are a string or a quick_xml::Error; a quarter of the plans are random multi-fault patterns instead; distinct = Plan hash x fault list; non-trivial = the fault hit a refill call that is not the first one of its read call (part of the event was already consumed)",
             assumptions: vec![
                 "the fault-free run over the same source and chunking is the reference",
                 "fault points are exhaustive per sampled (document, chunking); documents and chunkings are sampled",
